@@ -59,6 +59,16 @@ CanonForest == pc = "trained" =>
      /\ \A i \in Labeled : lab[i] = L[i]
      /\ \A i \in Nodes : \A r \in proto : cost[i] <= Closure[r, i]
      /\ Cardinality(MinTrees) = 1 /\ \A T \in MinTrees : proto = CrossEnds(T)
+\* Monotone rescaling (C11, second sentence): for every strictly increasing f the minimax closure commutes with f
+\* and the set of minimum spanning trees is unchanged - hence prototypes, labels and predictions, which are
+\* defined from them by comparisons only, are unchanged.  Checked on the initial states (inputs).
+IncMaps == {f \in [1..M -> 1..(M + 2)] : \A x, y \in 1..M : x < y => f[x] < f[y]}
+RescaleInv == pc = "mst" => \A f \in IncMaps :
+     LET W2 == [e \in Pairs |-> f[W[e]]]
+         C1 == ClosureW(W)
+     IN /\ ClosureW(W2) = [a \in Nodes, b \in Nodes |-> IF a = b THEN 0 ELSE f[C1[a, b]]]
+        /\ MinTreesW(W2) = MinTreesW(W)
+InitOnly == pc = "mst" /\ proto = {} /\ \A i \in Nodes : col[i] # "B"   \* explore inputs only
 \* tie-free permutation inits: weights are a permutation of 1..|Pairs|
 InitD == Init /\ Distinct
 SpecD == InitD /\ [][Next]_vars
